@@ -1,5 +1,6 @@
 import SC.Properties.C11
 import SC.Proofs.SrcAsciiSet
+import SC.Proofs.SrcAsciiSetB
 /-!
 # C11 — source-level theorems (kept apart from `SC.Properties.C11`: see `Src/C04.lean`)
 -/
@@ -14,4 +15,9 @@ theorem source_asciiSet_contains (cell : Nat) (h : Heap) (vs : List Int) (hv : v
     Ret Gen.Src.str false str_asciiSet_contains [.ptr cell, .int c.toNat] h
       [.bool (decide (wrap .u32 ((toU .u32 (vs.getD (c.toNat / 32) 0) &&& toU .u32 (wrap .u32 ((toU .u32 1 <<< (c.toNat % 32) : Nat) : Int)) : Nat) : Int) ≠ 0))] h :=
   Str.asciiSet_contains cell h vs hv hc c
+/-- the same for `bytcase` (`Gen.Src.byt`) -/
+theorem source_asciiSet_contains_bytcase (cell : Nat) (h : Heap) (vs : List Int) (hv : vs.length = 8) (hc : h.getD cell .nil = .arr vs) (c : UInt8) :
+    Ret Gen.Src.byt true byt_asciiSet_contains [.ptr cell, .int c.toNat] h
+      [.bool (decide (wrap .u32 ((toU .u32 (vs.getD (c.toNat / 32) 0) &&& toU .u32 (wrap .u32 ((toU .u32 1 <<< (c.toNat % 32) : Nat) : Int)) : Nat) : Int) ≠ 0))] h :=
+  Byt.asciiSet_contains cell h vs hv hc c
 end C11
